@@ -10,13 +10,16 @@ from .harness import new_result, fail, bump
 
 PROP = 'C08'
 RUNS = {'quick': 32000, 'thorough': 1200000}
-BUDGET_S = {'quick': 120, 'thorough': 2000}
+BUDGET_S = {'quick': 200, 'thorough': 2000}
 CHUNK = 100
 PROPS = {'C08'}
 
 def init():
     lockstep.init()
     p08_hist.init()
+    from . import gen_tzx, tapeload
+    tapeload.init()
+    gen_tzx.init()
 
 N_PAIRS = {'quick': 420, 'thorough': p08_hist.pairs_total()}
 
@@ -24,6 +27,9 @@ def gen(rng, tier, index):
     if index < N_PAIRS[tier]:
         # exhaustive length-2 pager histories: thorough enumerates all (copy, engine, v1); quick draws a seeded subset
         return p08_hist.gen_pairs(index if tier == 'thorough' else rng.randrange(p08_hist.pairs_total()))
+    if index % 640 == 201:
+        from . import gen_tzx
+        return gen_tzx.gen_press(rng, tier, index)
     if index % 4 == 2:
         # boundary-value register sweep of one dispatch slot on one replica, judged by the range invariants only;
         # enumerated engine-major so that a quick batch covers every slot of the C, Python and contended C engines
@@ -112,7 +118,7 @@ def run_range_sweep(scn):
 def run(scn):
     if scn['kind'] == 'range-sweep':
         return run_range_sweep(scn)
-    if scn['kind'] in ('pager-sim', 'skool-memory', 'pager-pairs'):
+    if scn['kind'] in ('pager-sim', 'skool-memory', 'pager-pairs', 'press128'):
         return p08_hist.run(scn)
     res = new_result()
     sigs = set()
@@ -127,7 +133,7 @@ def run(scn):
 def sample(scn, res):
     if scn['kind'] == 'range-sweep':
         return scn
-    if scn['kind'] in ('pager-sim', 'skool-memory', 'pager-pairs'):
+    if scn['kind'] in ('pager-sim', 'skool-memory', 'pager-pairs', 'press128'):
         return {k: v for k, v in scn.items() if k != 'banks'}
     return {'kind': scn['kind'], 'machine': scn['machine'], 'slot': scn.get('slot'), 'steps': scn['steps'], 'ints': scn['ints'],
             'regs': scn['regs'], 'o7ffd': scn['mem'].get('o7ffd'), 'patches': scn['mem']['patches'][-1:]}
@@ -135,7 +141,7 @@ def sample(scn, res):
 def shrink_candidates(scn):
     if scn['kind'] == 'range-sweep':
         return []
-    if scn['kind'] in ('pager-sim', 'skool-memory', 'pager-pairs'):
+    if scn['kind'] in ('pager-sim', 'skool-memory', 'pager-pairs', 'press128'):
         return p08_hist.shrink_candidates(scn)
     return gen_lock.shrink_candidates(scn)
 
